@@ -1144,7 +1144,9 @@ Proof.
       destruct (Hd eq_refl) as (Hw3 & K3).
       rewrite (trans_ok f3 _ _ (PassToken true first_attempt))
         by (unfold transition_pass_token, assert_kind; rewrite K3; reflexivity).
-      cbn. split; [|apply Winv_note, W3].
+      cbn [bind].
+      (* F20 repair: the token is passed in the same poll *)
+      apply do_pass_token_wp; [|exact Tn|exact Hw3|apply Winv_note, W3|reflexivity].
       apply Rep_set_st; [exact R3|apply (Rep_online n); [exact R3|rewrite K3; discriminate]|exact I].
 Qed.
 
